@@ -118,12 +118,16 @@ def run(ctx, replay=None):
         grid = param_grid(ctx, rng)
         seeds = 5 if ctx.quick else 30
         rid = 0
+        n_enum = 0
         for (f, p, small) in grid:
             for s in range(seeds):
                 jobs.append(dict(rec_id=rid, f=f, p=p, seed=rng.randrange(2 ** 31), drift=small and f != 'memory_rooms'))
                 rid += 1
             if small and f != 'memory_rooms' and f != 'rooms':
-                jobs.append(dict(rec_id=rid, f=f, p=p, enumerate=True, drift=True, limit=2000 if ctx.quick else 20000))
+                # ids of enumerated outputs live in their own range (TLC integers are 32-bit)
+                jobs.append(dict(rec_id=rid, f=f, p=p, enumerate=True, drift=True, limit=2000 if ctx.quick else 20000,
+                                 enum_base=10_000_000 + n_enum * 20_000))
+                n_enum += 1
                 rid += 1
     rng.shuffle(jobs)
     paths, counts = resets.run_jobs(os.path.join(ctx.work, 'reset'), jobs)
